@@ -352,6 +352,9 @@ def check_bin(r, b, tag):
         # R12.4 options
         check_options(r, run_b, rsite, sfx)
 
+    # R12.10: "the library plus a header": the reader handed to the library is default-configured
+    from . import c08
+    c08.forbidden_calls(r, b, c08.CONFIG, "R12.10.default-reader" + sfx, "`%s` configures the reader: the program would accept or reject other inputs than the library does")
     # R12.7
     own = {n for n in b.reachable_from([run_b.name]) | {run_b.name} if n in b.bodies and
            not (b.bodies.get(n.split("::{closure")[0], b.bodies[n]).span.get("exp") or b.bodies[n].span.get("exp"))}
